@@ -42,6 +42,7 @@ type FnCtx struct {
 	contract         *Contract
 	smt              *Script
 	floatsIEEE       bool
+	callsiteMatched  map[*Clause]bool // callsite clauses that applied to at least one call of the function
 	excludedAxioms   map[string]bool // lemma proofs: axioms that must not be used (the one being proved)
 	heapSorts        map[string]string
 	initialHeaps     map[string]string
@@ -98,6 +99,7 @@ type Frame struct {
 	baseScope  int
 	loopEntryState map[*Loop]*State
 	selectSplits   map[*ssa.BasicBlock]selectSplit // select statements executed so far, by block (case splits of step obligations)
+	curCallBlock   *ssa.BasicBlock // block of the call being executed (prev() in callsite clauses)
 	loopHeadState  map[*Loop]*State // the state assumed at the head of an arbitrary iteration (prev() in step clauses)
 	loopScope  map[*Loop]int
 }
